@@ -167,6 +167,19 @@ def _resort_in_transform(chk, tr: FuncInfo):
             gs = ff.guards(c)
             ok = any(is_self_attr(g.test, "sorted") and g.polarity for g in gs)
             chk.check(ok, "SORT.state.transform", tr, c, why="transform must re-sort the projections exactly when the model has been sorted (if self.sorted)")
+            # same re-indexing as _sort_by_variance: positional isel by the stored index, then the old labels re-attached
+            par = ff.cfg.parents().get(id(c))
+            relabel = None
+            if isinstance(par, ast.Attribute) and par.attr == "assign_coords":
+                call2 = ff.cfg.parents().get(id(par))
+                if isinstance(call2, ast.Call):
+                    relabel = call_kwargs(call2).get("mode")
+            okr = relabel is not None and isinstance(relabel, ast.Attribute) and relabel.attr == "mode" and norm(relabel.value) == norm(c.func.value)
+            idx = call_kwargs(c).get("mode")
+            okv = isinstance(idx, ast.Attribute) and idx.attr == "values"
+            chk.check(okr and okv, "SORT.state.transform.same", tr, c,
+                      why="transform must re-order its projections exactly as _sort_by_variance re-orders the stored entries: "
+                          ".isel(mode=idx_modes_sorted.values).assign_coords(mode=<old mode labels>); anything else applies another permutation")
     chk.check(n >= 1, "SORT.state.transform.exists", tr, tr.node, construct=f"{tr.qualname}: re-sort of projections",
               why="transform never re-sorts its projections: after compute() the mode order of transform differs from scores()")
 
